@@ -2104,3 +2104,95 @@ Lemma local_ok_example :
   one_main_last w_local_ok = true /\ locals_of w_local_ok = [n_t0] /\
   py_exec 3 w_local_ok = [EVal n_t0 1; EVal n_t0 3; EVal n_t0 5] /\ vars_ok w_looplocal = false.
 Proof. vm_compute. repeat split; reflexivity. Qed.
+
+(* ------------------------------------------------------------------ the IR placement keeps every statement, once, in order *)
+Definition setup_part (it : item) : list stmt := match it with IStmt s => [s] | _ => [] end.
+Definition loop_part (it : item) : list stmt := match it with IMainLoop b => b | _ => [] end.
+
+Lemma split_partition : forall its,
+  fst (split its) = flat_map setup_part its /\ snd (split its) = flat_map loop_part its.
+Proof.
+  induction its as [|it r [IH1 IH2]]; [split; reflexivity|].
+  destruct it as [s|b|f b]; cbn [split flat_map setup_part loop_part]; destruct (split r) as [a c]; cbn [fst snd app] in *;
+    subst; split; reflexivity.
+Qed.
+
+Lemma marks_prom : forall top ins nn, flat_map marks_irn (prom top ins nn) = [].
+Proof.
+  intros top ins nn. unfold prom. destruct (top && ins); [reflexivity|]. destruct top.
+  - induction nn as [|x r IH]; [reflexivity|]. cbn. exact IH.
+  - induction nn as [|x r IH]; [reflexivity|]. cbn. exact IH.
+Qed.
+
+Lemma marks_ir_list : forall l,
+  Forall (fun s => forall top ins d, flat_map marks_irn (ir_stmt top ins d s) = marks_stmt s) l ->
+  forall top ins d, flat_map marks_irn (ir_list top ins d l) = flat_map marks_stmt l.
+Proof.
+  intros l HF. induction HF as [|s r Hs _ IH]; intros top ins d; [reflexivity|].
+  cbn [ir_list flat_map]. rewrite flat_map_app, Hs, IH. reflexivity.
+Qed.
+
+Lemma ir_block_eq : forall ins l d,
+  (fix go (d : list name) (l : list stmt) : list irn :=
+     match l with
+     | [] => []
+     | s1 :: r => ir_stmt false ins d s1 ++ go (d ++ assigned_stmt s1) r
+     end) d l = ir_list false ins d l.
+Proof. intros ins l. induction l as [|s r IH]; intro d; [reflexivity|]. cbn [ir_list]. rewrite IH. reflexivity. Qed.
+
+Lemma marks_ir_stmt : forall s top ins d, flat_map marks_irn (ir_stmt top ins d s) = marks_stmt s.
+Proof.
+  intro s. induction s as [id dev|dd|x e|dv x|l| |x b IHb|c b IHb] using stmt_ind'; intros top ins d; try reflexivity.
+  - cbn [ir_stmt marks_stmt]. destruct (mem_name x d); [reflexivity|]. destruct (top && ins).
+    + destruct e; reflexivity.
+    + destruct top; reflexivity.
+  - cbn [ir_stmt marks_stmt]. rewrite flat_map_app, marks_prom, ir_block_eq. cbn [app flat_map marks_irn].
+    rewrite app_nil_r. apply marks_ir_list. exact IHb.
+  - cbn [ir_stmt marks_stmt]. rewrite flat_map_app, marks_prom, ir_block_eq. cbn [app flat_map marks_irn].
+    rewrite app_nil_r. apply marks_ir_list. exact IHb.
+Qed.
+
+Lemma marks_ir_items : forall its d,
+  flat_map marks_irn (fst (ir_items d its)) = flat_map marks_stmt (fst (split its)) /\
+  flat_map marks_irn (snd (ir_items d its)) = flat_map marks_stmt (snd (split its)).
+Proof.
+  induction its as [|it r IH]; intro d; [split; reflexivity|]. destruct it as [s|b|f b].
+  - cbn [ir_items split]. specialize (IH (d ++ assigned_stmt s)).
+    destruct (ir_items (d ++ assigned_stmt s) r) as [a c]. destruct (split r) as [a' c']. cbn [fst snd] in *.
+    destruct IH as [IH1 IH2]. split; [|exact IH2]. cbn [flat_map]. rewrite flat_map_app, marks_ir_stmt, IH1. reflexivity.
+  - cbn [ir_items split]. specialize (IH (d ++ flat_map assigned_stmt b)).
+    destruct (ir_items (d ++ flat_map assigned_stmt b) r) as [a c]. destruct (split r) as [a' c']. cbn [fst snd] in *.
+    destruct IH as [IH1 IH2]. split; [exact IH1|]. rewrite !flat_map_app, IH2. f_equal.
+    apply marks_ir_list. apply Forall_forall. intros s _. apply marks_ir_stmt.
+  - cbn [ir_items split]. apply IH.
+Qed.
+
+Lemma ir_placement : forall its,
+  flat_map marks_irn (ir_setup its) = flat_map marks_stmt (flat_map setup_part its) /\
+  flat_map marks_irn (ir_loop its) = flat_map marks_stmt (flat_map loop_part its) /\
+  exists user, ir_loop its = map NPoll (poll_names its) ++ map NTick (tick_names its) ++ user /\
+               Forall (fun n => match n with NPoll _ | NTick _ => False | _ => True end) user.
+Proof.
+  intro its. destruct (marks_ir_items its []) as [H1 H2]. destruct (split_partition its) as [P1 P2].
+  unfold ir_setup, ir_loop. rewrite <- P1, <- P2. split; [exact H1|]. split.
+  - rewrite !flat_map_app, H2.
+    assert (Hp : forall l, flat_map marks_irn (map NPoll l) = []) by (induction l as [|x r IH]; [reflexivity|exact IH]).
+    assert (Ht : forall l, flat_map marks_irn (map NTick l) = []) by (induction l as [|x r IH]; [reflexivity|exact IH]).
+    rewrite Hp, Ht. reflexivity.
+  - exists (snd (ir_items [] its)). split; [reflexivity|].
+    assert (HS : forall s top ins d, Forall (fun n => match n with NPoll _ | NTick _ => False | _ => True end) (ir_stmt top ins d s)).
+    { intros s top ins d. destruct s; cbn [ir_stmt]; repeat constructor.
+      - destruct (mem_name x d); [repeat constructor|]. destruct (top && ins); [destruct e; repeat constructor|].
+        destruct top; repeat constructor.
+      - apply Forall_app. split; [|repeat constructor]. unfold prom. destruct (top && ins); [constructor|].
+        destruct top; apply Forall_forall; intros n Hn; apply in_map_iff in Hn as (y & <- & _); exact I.
+      - apply Forall_app. split; [|repeat constructor]. unfold prom. destruct (top && ins); [constructor|].
+        destruct top; apply Forall_forall; intros n Hn; apply in_map_iff in Hn as (y & <- & _); exact I. }
+    assert (HL : forall l top ins d, Forall (fun n => match n with NPoll _ | NTick _ => False | _ => True end) (ir_list top ins d l)).
+    { induction l as [|s r IH]; intros top ins d; [constructor|]. cbn [ir_list]. apply Forall_app. split; [apply HS|apply IH]. }
+    clear H1 H2 P1 P2. generalize (@nil name). induction its as [|it r IH]; intro d; [constructor|]. destruct it as [s|b|f b]; cbn [ir_items].
+    + specialize (IH (d ++ assigned_stmt s)). destruct (ir_items (d ++ assigned_stmt s) r) as [a c]. exact IH.
+    + specialize (IH (d ++ flat_map assigned_stmt b)). destruct (ir_items (d ++ flat_map assigned_stmt b) r) as [a c].
+      cbn [snd] in *. apply Forall_app. split; [apply HL|exact IH].
+    + apply IH.
+Qed.
